@@ -216,19 +216,26 @@ class PlanConversion(Contract):
             c.fz("Unit", u, "prefix") == o.fz("Unit", u, "prefix"), c.fz("Unit", u, "factors") == o.fz("Unit", u, "factors"))))
 
 
+def _roles(c):
+    """loop roles (pyvc.verify._loop_roles): the specs below never name a local variable of convert"""
+    info = c.old.loop
+    if len(info.carried) != 1:
+        raise Unsupported("convert loop: expected exactly one carried variable, found %s" % (info.carried,))
+    return info, info.carried[0]
+
+
 class ConvertOuter(Loop):
-    """for ratio, path, exponent in plan: magnitude == APLk(plan, i, m0)"""
+    """for <entry> in plan: the carried magnitude == APLk(plan, i, magnitude at loop entry)"""
 
     def inv(self, c, e, i):
-        from .c_quantity import mval as qmval
-        m0 = qmval(c, e.this)
-        yield "applied-prefix-of-plan", to_real(e.magnitude) == APLk(e.plan.z, i, m0)
-        yield "decimal-kept", z3.Implies(Num.nkind(c.f(e.this, "magnitude")) == K_DEC, kind_of(e.magnitude) == K_DEC)
+        info, acc = _roles(c)
+        m0 = info.entry_env[acc]
+        yield "applied-prefix-of-plan", to_real(getattr(e, acc)) == APLk(info.seq.z, i, to_real(m0))
+        yield "decimal-kept", z3.Implies(kind_of(m0) == K_DEC, kind_of(getattr(e, acc)) == K_DEC)
 
     def lemmas(self, c, e, i, _k):
-        from .c_quantity import mval as qmval
-        plan = e.plan.z
-        m0 = qmval(c, e.this)
+        info, acc = _roles(c)
+        plan, m0 = info.seq.z, to_real(info.entry_env[acc])
         yield APLk(plan, z3.IntVal(0), m0) == m0
         # affine lemma (lemmas/Affine.lean): applying k plan entries is x |-> A*x + B
         yield APLk(plan, i, m0) == APLA(plan, i) * m0 + APLB(plan, i)
@@ -237,16 +244,24 @@ class ConvertOuter(Loop):
 
 
 class ConvertInner(Loop):
-    """for scale, offset, _ in path: magnitude == APk(path, j, exponent, value at loop entry)"""
+    """for <hop> in path: the carried magnitude == APk(path, j, exponent of the enclosing entry, value at loop entry)"""
+
+    def _exp(self, info, e):
+        ints = [n for n in (info.outer[-1] if info.outer else []) if isinstance(info.entry_env.get(n), VInt)]
+        if len(ints) != 1:
+            raise Unsupported("convert inner loop: the enclosing loop should bind exactly one int (the exponent)")
+        return info.entry_env[ints[0]].z
 
     def inv(self, c, e, j):
-        m_in = to_real(c.old.st.env["magnitude"])
-        yield "applied-prefix-of-path", to_real(e.magnitude) == APk(e.path.z, j, e.exponent.z, m_in)
-        yield "decimal-kept", z3.Implies(kind_of(c.old.st.env["magnitude"]) == K_DEC, kind_of(e.magnitude) == K_DEC)
+        info, acc = _roles(c)
+        m_in = info.entry_env[acc]
+        yield "applied-prefix-of-path", to_real(getattr(e, acc)) == APk(info.seq.z, j, self._exp(info, e), to_real(m_in))
+        yield "decimal-kept", z3.Implies(kind_of(m_in) == K_DEC, kind_of(getattr(e, acc)) == K_DEC)
 
     def lemmas(self, c, e, j, _k):
-        m_in = to_real(c.old.st.env["magnitude"])
-        path, ex = e.path.z, e.exponent.z
+        info, acc = _roles(c)
+        m_in = to_real(info.entry_env[acc])
+        path, ex = info.seq.z, self._exp(info, e)
         yield APk(path, z3.IntVal(0), ex, m_in) == m_in
         yield z3.Implies(z3.And(j >= 0, j < z3.Length(path)),
                          APk(path, j + 1, ex, m_in) == APk(path, j, ex, m_in) * rpow(hop_scale(path[j]), ex) + hop_offset(path[j]))
